@@ -61,6 +61,42 @@ def gen_case(rng, tier):
                 evs.append(("sql_stmt", st))
                 evs.append(("read", sorted(g.tables)[:4]))
             evs.append(("show",))
+        elif created and r < 0.075 and not any(x.startswith("arch") for x in created):
+            # two databases one of whose names is DERIVED from the other's (a suffix or prefix a program might use for
+            # a temporary, backup or lock file of the other): creating, failing to create again and selecting one
+            # must leave the other alone
+            base = "arch" + rng.choice(["", "ive", "1"])
+            der = rng.choice([base + ".tmp", base + ".bak", base + ".new", base + "~", base + ".old", base + "_tmp", base + ".1",
+                              base + ".lock", "tmp_" + base, base + ".wal", base + ".tbl", base + "-journal"])
+            first, second = (der, base) if rng.random() < 0.7 else (base, der)
+            evs.append(("createdb", first))
+            created.append(first)
+            gens[first] = hist.Gen(rng, 3)
+            evs.append(("use", first))
+            cur = first
+            evs.append(("sql_stmt", gens[first].create()))
+            evs.append(("sql_stmt", gens[first].insert(nrows=2)))
+            evs.append(("createdb", second))
+            created.append(second)
+            gens[second] = hist.Gen(rng, 3)
+            evs.append(("show",))
+            evs.append(("read", sorted(gens[first].tables)[:4]))
+            if rng.random() < 0.5:
+                evs.append(("createdb", second))          # exists now: an error that changes nothing
+                evs.append(("createdb", first))
+                evs.append(("show",))
+            evs.append(("use", second))
+            cur = second
+            evs.append(("sql_stmt", gens[second].create()))
+            evs.append(("read", sorted(gens[second].tables)[:4]))
+            evs.append(("restart", rng.random() < 0.5))
+            cur = None
+            for nm in (first, second):
+                evs.append(("use", nm))
+                cur = nm
+                evs.append(("read", sorted(gens[nm].tables)[:4]))
+                evs.append(("sql_stmt", gens[nm].insert(nrows=1)))
+            evs.append(("show",))
         elif r < 0.12 or not created:
             name = rng.choice(DBNAMES[:5])
             evs.append(("createdb", name))
@@ -99,6 +135,18 @@ def gen_case(rng, tier):
                 evs.append(("use", other))
                 evs.append(("sql_stmt", g.insert(nrows=rng.choice([1, 2, 9]))))
                 evs.append(("read", sorted(g.tables)[:4]))
+    # every case ends with the pattern once more, deterministically: write, re-select the same database under
+    # another spelling WITHOUT a timer tick in between, write again, read
+    for d in [x for x in created if x.isascii() and x.isalnum() and gens[x].tables][:2]:
+        g = gens[d]
+        evs.append(("use", d))
+        evs.append(("sql_stmt", g.insert(nrows=rng.choice([2, 9]))))
+        evs.append(("use", d.upper() if d != d.upper() else d.lower()))
+        evs.append(("sql_stmt", g.insert(nrows=rng.choice([1, 9]))))
+        evs.append(("read", sorted(g.tables)[:4]))
+        evs.append(("use", d.capitalize()))
+        evs.append(("sql_stmt", g.insert(nrows=1)))
+        evs.append(("read", sorted(g.tables)[:4]))
     # finally visit every database once more after a restart
     evs.append(("restart", False))
     for d in created:
